@@ -69,6 +69,13 @@ def shapes(tier):
                 ni, nt = sum(li_) + len(li_) - 1, sum(lt_) + len(lt_) - 1
                 out.append({'mode': 'spell', 'li': ni, 'lp': nt if pi == 'target' else ni, 'lt': nt, 'g': True,
                             'lay_i': li_, 'lay_t': lt_, 'pred_is': pi})
+    # the same word-level shapes behind a first word that is one multi-code-point grapheme cluster (e + U+0301): character
+    # indices and code point indices differ from there on
+    for li_, lt_ in [([1, 1], [2]), ([2], [1, 1]), ([1], [1]), ([2, 1], [1, 2]), ([1, 1], [1, 1])]:
+        for pi in ('target', 'input'):
+            ni, nt = sum(li_) + len(li_) - 1, sum(lt_) + len(lt_) - 1
+            out.append({'mode': 'spell', 'li': ni + 3, 'lp': (nt if pi == 'target' else ni) + 3, 'lt': nt + 3, 'g': True,
+                        'lay_i': li_, 'lay_t': lt_, 'pred_is': pi, 'cluster_prefix': True})
     for k in range(0, 3):
         for sa in (False, True):
             out.append({'mode': 'agg', 'k': k, 'seq_avg': sa})
@@ -203,6 +210,14 @@ def run(ctx, shape, opts):
             prd = ctx.in_string('pred', [1] * len(same.chars()))
             for c, d in zip(prd.chars(), same.chars()):
                 ctx.assume(c.v == d.v)
+            if shape.get('cluster_prefix'):
+                def pref(sv):
+                    chars = [Int(0x65, 'char'), Int(0x301, 'char'), Int(0x20, 'char')] + list(sv.chars())
+                    buf = StrBuf(chars, [ctx.char_width(c) for c in chars])
+                    return StrRef(buf, 0, buf.byte_len())
+                inp, tgt, prd = pref(inp), pref(tgt), pref(prd)
+                for nm_ in ('input', 'target', 'pred'):
+                    ctx.inputs[nm_] = [0x65, 0x301, 0x20] + list(ctx.inputs[nm_])
         else:
             inp = abs_string(ctx, 'input', shape['li'])
             prd = abs_string(ctx, 'pred', shape['lp'])
